@@ -218,7 +218,10 @@ bt_en_decode(uint8_t *buf, size_t buf_size, bt_en_node_p *ret_data, size_t *ret_
 			return (error);
 		}
 		/* Store data and return OK. */
-		l = reallocarray(l, (items_count + 1), sizeof(bt_en_node_p));
+		ptm = reallocarray(l, (items_count + 1), sizeof(bt_en_node_p));
+		if (NULL != ptm) { /* Shrink fail: keep pre allocated. */
+			l = (bt_en_node_p*)ptm;
+		}
 		(*ret_data)->val.l = l;
 		(*ret_data)->val_count = items_count;
 		if (NULL != ret_buf_off) {
@@ -291,7 +294,10 @@ bt_en_decode(uint8_t *buf, size_t buf_size, bt_en_node_p *ret_data, size_t *ret_
 			return (error);
 		}
 		/* Store data and return OK. */
-		d = reallocarray(d, (items_count + 1), sizeof(be_en_dict_t));
+		ptm = reallocarray(d, (items_count + 1), sizeof(be_en_dict_t));
+		if (NULL != ptm) { /* Shrink fail: keep pre allocated. */
+			d = (be_en_dict_p)ptm;
+		}
 		(*ret_data)->val.d = d;
 		(*ret_data)->val_count = items_count;
 		if (NULL != ret_buf_off) {
